@@ -302,6 +302,32 @@ def _cold_exec(specs, make_op, prefix, labels, opcode):
         r.close()
 
 
+def _cold_exec_ops(make_ops, prefix, labels, opcode):
+    ops = make_ops()
+    r = Runner(len(ops), opcode, per_line_limit=COLD_PER_LINE_LIMIT)
+    try:
+        ch = choice.Chooser(prefix, labels)
+        st = r.run(ops, ch)
+        return (ch.trace, ch.free, st.results, st.steps, st.preemptions, st.switch_log)
+    finally:
+        r.close()
+
+
+def explore_forked(make_ops, bound: int, opcode: bool = False):
+    """Every execution in its own fork of the calling process (ops built by ``make_ops`` inside the
+    child): used when a library under test carries state from one execution into the next, so that
+    replaying a schedule prefix in the same process would not see the same behaviour."""
+    from .par import in_child
+
+    def run(ch):
+        trace, free, results, steps, pre, log = in_child(_cold_exec_ops, make_ops, ch.prefix, ch.labels, opcode)
+        ch.trace, ch.free = list(trace), list(free)
+        return results, steps, pre, log
+
+    for ch, (results, steps, pre, log) in choice.explore(run, bound, check_labels=True):
+        yield ch, results, steps, pre, log
+
+
 def explore_cold(specs, make_op, bound: int, opcode: bool = False):
     """Like ``explore`` but every execution starts in its own fork of the (pristine, post-import)
     calling process, so that first-use code paths - lazy initialisation, caches filled on first
